@@ -18,10 +18,12 @@ Definition dec_factory (v : val) : factory :=
   match as_int (nthv 0 v) with
   | 0 => {| f_can := fun u => is_prefix RTSP_PREFIX (to_lower u);
             f_ok := fun _ u => is_prefix CAM_PREFIX (to_lower u);
-            f_real := true |}
+            f_real := true;
+            f_key := rtsp_key (fun _ => []) |}   (* url.Parse(remoteURL).Path: irrelevant, C17_pull_client_path_is_canonical *)
   | _ => {| f_can := fun u => is_prefix can u;
             f_ok := fun _ u => match fail with [] => true | _ => negb (is_prefix fail u) end;
-            f_real := false |}
+            f_real := false;
+            f_key := newstream_key |}
   end.
 
 Definition dec_pop (v : val) : pop :=
@@ -57,7 +59,7 @@ Definition enc_pout (o : pout) : val :=
   | POUnit => VL [VI 0]
   | POId i => VL [VI 1; VI i]
   | POOpt x => VL [VI 2; vopt VI x]
-  | POReq g s n => VL [VI 3; enc_goc g; vopt VI s; vlist VB n]
+  | POReq g s n r => VL [VI 3; enc_goc g; vopt VI s; vlist VB n; vlist (fun e => VL [VB (fst e); VI (snd e)]) r]
   | POAll t => VL [VI 4; vlist enc_route t]
   end.
 Definition dec_pout (v : val) : pout :=
@@ -66,6 +68,7 @@ Definition dec_pout (v : val) : pout :=
   | 1 => POId (as_int (nthv 1 v))
   | 2 => POOpt (as_opt as_int (nthv 1 v))
   | 3 => POReq (dec_goc (nthv 1 v)) (as_opt as_int (nthv 2 v)) (map as_bytes (as_list (nthv 3 v)))
+             (map (fun e => (as_bytes (nthv 0 e), as_int (nthv 1 e))) (as_list (nthv 4 v)))
   | _ => POAll (map dec_route (as_list (nthv 1 v)))
   end.
 
